@@ -455,6 +455,20 @@ class IRGenerator:
             raw_api (Tuple[Namespace, List[stone.stone.parser._Element]]):
                 Namespace paired with raw parser output.
         """
+        # Namespace name -> names of the namespaces it imports (so far).
+        import_graph = {}
+
+        def imports_transitively(start, goal):
+            pending, seen = [start], set()
+            while pending:
+                cur = pending.pop()
+                if cur == goal:
+                    return True
+                if cur not in seen:
+                    seen.add(cur)
+                    pending.extend(import_graph.get(cur, ()))
+            return False
+
         for namespace, desc in raw_api:
             for item in desc:
                 if isinstance(item, AstImport):
@@ -468,14 +482,16 @@ class IRGenerator:
                             item.lineno, item.path)
                     env = self._get_or_create_env(namespace.name)
                     imported_env = self._get_or_create_env(item.target)
-                    if namespace.name in imported_env:
-                        # Block circular imports. The Python backend can't
-                        # easily generate code for circular references.
+                    if imports_transitively(item.target, namespace.name):
+                        # Block circular imports (of any length). The Python
+                        # backend can't easily generate code for circular
+                        # references.
                         raise InvalidSpec(
                             'Circular import of namespaces %s and %s '
                             'detected.' %
                             (quote(namespace.name), quote(item.target)),
                             item.lineno, item.path)
+                    import_graph.setdefault(namespace.name, set()).add(item.target)
                     env[item.target] = imported_env
 
     @staticmethod
